@@ -47,11 +47,12 @@ func (u *writeUnit) cycle(ctx *risc.Context, before int32) {
 				return
 			}
 			u.coroutine = nil
-			ctx.WriteMemory(u.memoryWrite.Execution)
 			ctx.DeletePendingRegisters(u.memoryWrite.ReadRegisters, u.memoryWrite.WriteRegisters)
 			log.Infoi(ctx, "WU", u.memoryWrite.InstructionType, -1, "write to memory")
 		}
 
+		// The write is visible at once; the unit stays busy for the memory latency
+		ctx.WriteMemory(execution.Execution)
 		u.memoryWrite = execution
 	} else {
 		ctx.DeletePendingRegisters(execution.ReadRegisters, execution.WriteRegisters)
